@@ -297,7 +297,7 @@ Pool make_pool(uint64_t pool_seed) {
       int base = (int)ins.size();
       for (int i = 0; i < 3; i++) ins.push_back(mutate(r, ins[(size_t)r.below((uint64_t)base)], g.codes));
     } else {
-      for (int i = 0; i < 5; i++) ins.push_back(gen_sentence(r, g, r.range(4, 24)));
+      for (int i = 0; i < 5; i++) ins.push_back(gen_sentence(r, g, r.range(2, 12)));
       for (int i = 0; i < 3; i++) ins.push_back(mutate(r, ins[(size_t)r.below(5)], g.codes));
       ins.push_back({});
     }
